@@ -157,6 +157,7 @@ package metadatapart
 
 // A part found through the dedup index is shared only after a registry reference on exactly that part was acquired.
 //@ func (*metadataPartStorage).tryShareDedupPart
+//@ property C01
 //@ mode effects
 //@ ensures[C08:shared-only-with-a-reference] result != nil ==> called(mbs.metadataStore.TryAddPartReferences) && result_of(mbs.metadataStore.TryAddPartReferences, 0) && result_of(mbs.metadataStore.TryAddPartReferences, 1) == nil
 //@ effect[C08:reference-on-the-indexed-part] every mbs.metadataStore.TryAddPartReferences(_, _, $ids) where len($ids) == 1 && existing != nil && $ids[0] == existing.PartId
